@@ -105,9 +105,12 @@ def recording(w: World, rec: Recorder):
         setattr(cls, name, maker(orig))
 
     def mk_job_init(orig):
-        def __init__(self, task, expr, id=None, parent_job=None, execution=None, options=None):
-            orig(self, task, expr, id=id, parent_job=parent_job, execution=execution,
-                 options=options)
+        def __init__(self, task, expr, *a, **k):
+            # (signature-tolerant: a change to redun's internal signatures must not be mistaken
+            # for a property violation nor hide one)
+            orig(self, task, expr, *a, **k)
+            parent_job = getattr(self, "parent_job", None)
+            execution = getattr(self, "execution", None)
             r = rec.rec(self)
             if r.task is not None:
                 # extend_run() builds a stand-in Job object with the id of the calling job;
@@ -134,7 +137,7 @@ def recording(w: World, rec: Recorder):
         return __init__
 
     def mk_resolve(orig):
-        def resolve(self, result):
+        def resolve(self, result, *a, **k):
             r = rec.rec(self)
             r.outcome = ("v", _val_key(result))
             r.was_cached = self.was_cached
@@ -145,11 +148,11 @@ def recording(w: World, rec: Recorder):
             r.settled_seq = w.event("job-resolve", r.task, self.id[:8], self.was_cached)
             if self.parent_job is None and rec.root_settled_seq is None:
                 rec.root_settled_seq = r.settled_seq
-            return orig(self, result)
+            return orig(self, result, *a, **k)
         return resolve
 
     def mk_reject(orig):
-        def reject(self, error):
+        def reject(self, error, *a, **k):
             r = rec.rec(self)
             r.outcome = ("e", _val_key(error))
             r.was_cached = self.was_cached
@@ -160,11 +163,11 @@ def recording(w: World, rec: Recorder):
             r.settled_seq = w.event("job-reject", r.task, self.id[:8], type(error).__name__)
             if self.parent_job is None and rec.root_settled_seq is None:
                 rec.root_settled_seq = r.settled_seq
-            return orig(self, error)
+            return orig(self, error, *a, **k)
         return reject
 
     def mk_submit(orig):
-        def _submit(self, exec_func, job):
+        def _submit(self, exec_func, job, *xa, **xk):
             r = rec.rec(job)
             r.handoffs += 1
             r.eval_hash = job.eval_hash
@@ -191,11 +194,11 @@ def recording(w: World, rec: Recorder):
                 rec.handoff_after_root.append(job.id)
             for cb in rec.callbacks.get("submit", []):
                 cb(self, job)
-            return orig(self, exec_func, job)
+            return orig(self, exec_func, job, *xa, **xk)
         return _submit
 
     def mk_exec_main(orig):
-        def _exec_job_main_thread(self, job, eval_args):
+        def _exec_job_main_thread(self, job, *a, **k):
             r = rec.rec(job)
             r.exec_count += 1
             for cb in rec.callbacks.get("exec_main", []):
@@ -203,7 +206,7 @@ def recording(w: World, rec: Recorder):
             prev = rec.cur_job
             rec.cur_job = (job.id, "exec")
             try:
-                return orig(self, job, eval_args)
+                return orig(self, job, *a, **k)
             finally:
                 rec.cur_job = prev
         return _exec_job_main_thread
@@ -221,23 +224,24 @@ def recording(w: World, rec: Recorder):
         return maker
 
     def mk_collapse(orig):
-        def collapse(self, other_job):
+        def collapse(self, other_job, *a, **k):
             rec.collapsed[self.id] = other_job.id
             w.event("collapse", self.id[:8], other_job.id[:8])
-            return orig(self, other_job)
+            return orig(self, other_job, *a, **k)
         return collapse
 
     def mk_resolve_main(orig):
-        def _resolve_job_main_thread(self, job, result):
+        def _resolve_job_main_thread(self, job, *a, **k):
             r = rec.rec(job)
             r.pre_call_hash = job.call_hash
             r.main_resolved = True
-            return orig(self, job, result)
+            return orig(self, job, *a, **k)
         return _resolve_job_main_thread
 
     def mk_eval_apply(orig):
-        def _evaluate_apply(self, expr, parent_job=None):
-            promise = orig(self, expr, parent_job=parent_job)
+        def _evaluate_apply(self, expr, *a, **k):
+            parent_job = k.get("parent_job", a[0] if a else None)
+            promise = orig(self, expr, *a, **k)
             cbs = rec.callbacks.get("eval_apply")
             if cbs:
                 for cb in cbs:
@@ -260,33 +264,33 @@ def recording(w: World, rec: Recorder):
         return getattr(sched, "_verif_cur_job", None)
 
     def mk_consume(orig):
-        def _consume_resources(self, job_limits):
+        def _consume_resources(self, job_limits, *a, **k):
             w.event("consume", tuple(sorted(job_limits.items())))
             if rec.cur_job and rec.cur_job[0] in rec.jobs:
                 rec.jobs[rec.cur_job[0]].consumed.append((dict(job_limits), rec.cur_job[1]))
             for cb in rec.callbacks.get("consume", []):
                 cb(self, dict(job_limits))
-            return orig(self, job_limits)
+            return orig(self, job_limits, *a, **k)
         return _consume_resources
 
     def mk_release(orig):
-        def _release_resources(self, job_limits):
+        def _release_resources(self, job_limits, *a, **k):
             w.event("release", tuple(sorted(job_limits.items())))
             if rec.cur_job and rec.cur_job[0] in rec.jobs:
                 rec.jobs[rec.cur_job[0]].released.append((dict(job_limits), rec.cur_job[1]))
-            out = orig(self, job_limits)
+            out = orig(self, job_limits, *a, **k)
             for cb in rec.callbacks.get("release", []):
                 cb(self, dict(job_limits))
             return out
         return _release_resources
 
     def mk_finalize(orig):
-        def _finalize_job(self, job):
+        def _finalize_job(self, job, *a, **k):
             r = rec.rec(job)
             r.finalized += 1
             r.status = job.status
             w.event("finalize", r.task, job.id[:8], job.status)
-            return orig(self, job)
+            return orig(self, job, *a, **k)
         return _finalize_job
 
     try:
